@@ -251,7 +251,11 @@ def render (op : Op) (st : Fed) (c : Ctx) : String :=
           | .connClosed => if blind then none else some "closed"
           | .reconnected => some "reconnect"
           | _ => none
-        "L:" ++ joinBar ls ++ " P:" ++ joinBar (pre ++ ps) ++ " B:0"
+        -- a local message that found no connection is seen in the client's queue
+        let queued := match op with
+          | .localMsg => if c.st.pending.length > st.pending.length then ["queued"] else []
+          | _ => []
+        "L:" ++ joinBar ls ++ " P:" ++ joinBar (pre ++ ps ++ queued) ++ " B:0"
 
 structure St where
   fed : Fed := {}
